@@ -183,7 +183,7 @@ def dbStep (s : St) (toks : List String) : IO (St × String) := do
   | ["links"] =>
     let s := s.checkLatest c
     let b (x : Bool) := if x then "1" else "0"
-    return (s, s!"wrapper={b (s.db.wrapperLinksB c.sch)} nesting={b (s.db.nestingLinksB c.sch)} unique={b (s.db.uniqueNamesDistinctB c.sch)} seqs={b (s.db.makeSeqLinksB c.sch)}")
+    return (s, s!"wrapper={b (s.db.wrapperLinksB c.sch)} nesting={b (s.db.nestingLinksB c.sch)} unique={b (s.db.uniqueNamesDistinctB c.sch)} seqs={b (s.db.makeSeqLinksB c.sch)} this={b (s.db.thisLinksB c.sch)}")
   | ["remap", first] =>
     let s := s.checkLatest c
     let (db, _) := s.db.remapIndices c.sch c.rc (parseInt first)
